@@ -59,18 +59,20 @@ Theorem C23_fuel_irrelevant : forall f f' g id r, (f <= f')%nat ->
 Proof. exact filter_node_mono. Qed.
 Print Assumptions C23_fuel_irrelevant.
 
-(* finding C23-1: a redirect cycle exhausts every fuel.  General form: any usable child of the root
+(* finding C23-1, fixed by commit 1985bf6 (memoised copies) - facts about the plain recursion, i.e. the
+   code BEFORE the repair, which is why the acyclicity premise above was needed and why the repair was:
+   a redirect cycle exhausts every fuel.  General form: any usable child of the root
    whose redirect is the root itself (brigadier's standard `redirect(root)` idiom) ... *)
-Theorem C23_redirect_to_root_diverges : forall g r c n,
+Theorem C23_redirect_to_root_diverged_before_fix : forall g r c n,
   lookup g 0 = Some r -> g_kind r = KRoot -> In c (g_children r) ->
   lookup g c = Some n -> g_kind n <> KRoot -> g_req n = true -> g_redirect n = Some 0 ->
   forall fuel, filter_node fuel g 0 = OutOfFuel.
 Proof. intros g r c n H0 H1 H2 H3 H4 H5 H6 fuel. exact (proj1 (redirect_to_root_diverges g r c n H0 H1 H2 H3 H4 H5 H6 fuel)). Qed.
-Print Assumptions C23_redirect_to_root_diverges.
+Print Assumptions C23_redirect_to_root_diverged_before_fix.
 
 (* ... and the confirmed instance d.Register(Literal("run").Redirect(&d.Root)): the graph has the
    cycle 0 -> 1 -> 0 and filter_node returns OutOfFuel for every fuel, so announce never answers *)
-Theorem filter_node_diverges : exists g,
+Theorem filter_node_diverged_before_fix : exists g,
   (exists r n, lookup g 0 = Some r /\ In 1 (g_children r) /\ lookup g 1 = Some n /\ g_redirect n = Some 0) /\
   forall fuel, filter_node fuel g 0 = OutOfFuel /\ forall backend, announce fuel g backend = None.
 Proof.
@@ -78,7 +80,7 @@ Proof.
   - exists (mkG KRoot true false None [1]), (mkG KLit true true (Some 0) []). repeat split; try reflexivity. now left.
   - intros fuel. split; [exact (g_cyclic_diverges fuel)|]. intros backend. unfold announce. now rewrite g_cyclic_diverges.
 Qed.
-Print Assumptions filter_node_diverges.
+Print Assumptions filter_node_diverged_before_fix.
 
 (* premises are satisfiable: a ranked graph with unusable nodes, a redirect and a name clash *)
 Example C23_nonvacuous :
